@@ -1923,6 +1923,9 @@ class Comparator:
     @classmethod
     def compare_mapping(cls, obj1, obj2):
         if type(obj1) is not type(obj2) or len(obj1) != len(obj2): return False
+        if isinstance(obj1, OrderedDict) and list(obj1) != list(obj2):
+            # For ordered dictionaries the order of the keys is part of the value
+            return False
         for k in obj1:
             if k in obj2:
                 if not cls.is_equal(obj1[k], obj2[k]):
